@@ -98,6 +98,12 @@
        constant), C03_WF_len_le_cap
 
    PARTLY / NOT COVERED BY A THEOREM (left to the correspondence check)
+     [The first two items below are now CLOSED by the section "AUDIT CLOSURE"
+      appended at the end of this file: C03_extend_loop_overflow,
+      C03_from_iter_overflow, C03_s_extend_loop_overflow, C03_s_from_iter_overflow
+      give the exact contents and the exact Drop log at the overflow; the same
+      section states "panics" positively for every single-item entry point
+      (C03_*_full_panics), Set::insert / replace, or_default and capacity().]
      - "the rejected key and value have been destroyed once" for the BULK entry
        points: extend / collect (Map and Set) state on panic only WF, unchanged
        capacity and "the list machine overflows"; that the overflowing item and
@@ -641,3 +647,746 @@ Example C03_example_replace_on_full_hyps :
   l_insert kcls (Spec.elems m3) (k_ 9 6) (v_ 10 10) false
     = ([(k_ 1 5, v_ 2 7); (k_ 3 6, v_ 10 10); (k_ 5 7, v_ 6 9)], 1, Some (k_ 9 6, v_ 4 8)).
 Proof. repeat split; vm_compute; reflexivity. Qed.
+
+(* ========================================================================== *)
+(* AUDIT CLOSURE (appended).  Proofs/MoreBulk.v.
+
+   1. "panics", POSITIVELY.  The *_lawful theorems above carry the panic only
+      contrapositively (the Ok clause contains  find_idx .. = None -> len < cap).
+      The theorems below state it as an equation on the run itself,
+          op .. w = Panic w'   /\  self w' = self w  /\  logged w w' (ev_drops ..)
+      from the three hypotheses "WF (self w)" (representation invariant),
+      "find_idx ck (ck k) (Spec.elems (self w)) = None" (the key is not present) and
+      "len (self w) = cap (self w)" (the container already holds N entries), for
+      EVERY capacity (0 included) and with `debug` universally quantified
+      ("in release builds exactly as in debug builds"):
+        insert_ii (both update_key modes)   C03_insert_ii_full_panics
+        insert                              C03_insert_full_panics
+        insert_key_value                    C03_insert_key_value_full_panics
+        VacantEntry::insert                 C03_vac_insert_full_panics
+        entry(k).or_insert(v)               C03_or_insert_full_panics
+        entry(k).or_insert_with(f)          C03_or_insert_with_full_panics
+        entry(k).or_insert_with_key(f)      C03_or_insert_with_key_full_panics
+        entry(k).or_default()               C03_or_default_full_panics
+        Set::insert / Set::replace          C03_s_insert_full_panics, C03_s_replace_full_panics
+                                            (and what they compute otherwise:
+                                             C03_s_insert_lawful, C03_s_replace_lawful)
+        checked_insert: Ok None, no panic   C03_checked_insert_full_none
+      For the closure-taking entry points the value destroyed is the one the
+      closure produced IN THE ACTUAL CALL: entry_of leaves the world w1
+      (C03_entry_of_vacant: a Vacant entry, container and log untouched), the
+      closure is called exactly once, at callback state  cb w1
+      (C03_or_insert_with_run / C03_or_insert_with_key_run: the run IS
+      "log EvCall 2, evaluate f (cb w1), VacantEntry::insert its value"), and
+      v is that value:  f (cb w1) = (Some v, s').  The wp forms with the call
+      tied in both clauses are C03_or_insert_with_tied / C03_or_insert_with_key_tied
+      (they replace the unconstrained  exists v s s', f s = (Some v, s')  of
+      C03_or_insert_with(_key)_lawful above).
+   2. Bulk paths with the exact contents and the exact event log at the
+      overflow: C03_extend_loop_overflow (+ _panics), C03_from_iter_overflow,
+      C03_s_extend_loop_overflow (+ _panics), C03_s_from_iter_overflow.
+   3. capacity(): C03_capacity_spec, C03_length_spec, C03_capacity_ge_len.
+   ========================================================================== *)
+Require Import Proofs.SetDict Proofs.MoreBulk.
+
+(* -------------------------------------------------------------------------- *)
+(* 1a. "Adding a key that is not present to a container that already holds N
+   entries through any safe API ... panics ... afterwards the container holds
+   exactly its previous entries ... and the rejected key and value have been
+   destroyed once".  Hypotheses: WF = invariant; find_idx = None = key absent;
+   len = cap = full.  Conclusion: the run IS a panic; self w' = self w; the log
+   grew by exactly the Drop events of k and v.                                 *)
+Theorem C03_insert_ii_full_panics :
+  forall (K V Q T : Type) (E : env K V Q T) (debug : bool) (ck : K -> N) (cq : Q -> N),
+  Lawful E ck cq ->
+  forall (k : K) (v : V) (u : bool) (w : world K V T),
+  WF (self w) ->
+  find_idx ck (ck k) (Spec.elems (self w)) = None ->
+  len (self w) = cap (self w) ->
+  exists w' : world K V T,
+    insert_ii E debug k v u w = Panic w' /\
+    self w' = self w /\
+    logged w w' (ev_drops (idK E k ++ idV E v)).
+Proof. exact (@insert_ii_full_panics). Qed.
+Print Assumptions C03_insert_ii_full_panics.
+
+Theorem C03_insert_full_panics :
+  forall (K V Q T : Type) (E : env K V Q T) (debug : bool) (ck : K -> N) (cq : Q -> N),
+  Lawful E ck cq ->
+  forall (k : K) (v : V) (w : world K V T),
+  WF (self w) ->
+  find_idx ck (ck k) (Spec.elems (self w)) = None ->
+  len (self w) = cap (self w) ->
+  exists w' : world K V T,
+    insert E debug k v w = Panic w' /\
+    self w' = self w /\
+    logged w w' (ev_drops (idK E k ++ idV E v)).
+Proof. exact (@insert_full_panics). Qed.
+Print Assumptions C03_insert_full_panics.
+
+Theorem C03_insert_key_value_full_panics :
+  forall (K V Q T : Type) (E : env K V Q T) (debug : bool) (ck : K -> N) (cq : Q -> N),
+  Lawful E ck cq ->
+  forall (k : K) (v : V) (w : world K V T),
+  WF (self w) ->
+  find_idx ck (ck k) (Spec.elems (self w)) = None ->
+  len (self w) = cap (self w) ->
+  exists w' : world K V T,
+    insert_key_value E debug k v w = Panic w' /\
+    self w' = self w /\
+    logged w w' (ev_drops (idK E k ++ idV E v)).
+Proof. exact (@insert_key_value_full_panics). Qed.
+Print Assumptions C03_insert_key_value_full_panics.
+
+Theorem C03_vac_insert_full_panics :
+  forall (K V Q T : Type) (E : env K V Q T) (debug : bool) (ck : K -> N) (cq : Q -> N),
+  Lawful E ck cq ->
+  forall (k : K) (v : V) (w : world K V T),
+  WF (self w) ->
+  find_idx ck (ck k) (Spec.elems (self w)) = None ->
+  len (self w) = cap (self w) ->
+  exists w' : world K V T,
+    vac_insert E debug k v w = Panic w' /\
+    self w' = self w /\
+    logged w w' (ev_drops (idK E k ++ idV E v)).
+Proof. exact (@vac_insert_full_panics). Qed.
+Print Assumptions C03_vac_insert_full_panics.
+
+(* "checked_insert returns None instead of panicking and changes nothing": the
+   run IS a normal return of None; container untouched; k and v destroyed once *)
+Theorem C03_checked_insert_full_none :
+  forall (K V Q T : Type) (E : env K V Q T) (debug : bool) (ck : K -> N) (cq : Q -> N),
+  Lawful E ck cq ->
+  forall (k : K) (v : V) (w : world K V T),
+  WF (self w) ->
+  find_idx ck (ck k) (Spec.elems (self w)) = None ->
+  len (self w) = cap (self w) ->
+  exists w' : world K V T,
+    checked_insert E debug k v w = Ok None w' /\
+    self w' = self w /\
+    logged w w' (ev_drops (idK E k ++ idV E v)).
+Proof. exact (@checked_insert_full_none). Qed.
+Print Assumptions C03_checked_insert_full_none.
+
+(* -------------------------------------------------------------------------- *)
+(* 1b. the entry API.  entry(k) on an absent key returns Vacant k in a world w1
+   that differs from w only in the callback state (the == calls of the scan). *)
+Theorem C03_entry_of_vacant :
+  forall (K V Q T : Type) (E : env K V Q T) (ck : K -> N) (cq : Q -> N),
+  Lawful E ck cq ->
+  forall (k : K) (w : world K V T),
+  WF (self w) ->
+  find_idx ck (ck k) (Spec.elems (self w)) = None ->
+  exists w1 : world K V T,
+    entry_of E k w = Ok (Vacant k) w1 /\ self w1 = self w /\ log w1 = log w.
+Proof. exact (@entry_of_vacant). Qed.
+Print Assumptions C03_entry_of_vacant.
+
+Theorem C03_or_insert_full_panics :
+  forall (K V Q T : Type) (E : env K V Q T) (debug : bool) (ck : K -> N) (cq : Q -> N),
+  Lawful E ck cq ->
+  forall (k : K) (v : V) (w : world K V T),
+  WF (self w) ->
+  find_idx ck (ck k) (Spec.elems (self w)) = None ->
+  len (self w) = cap (self w) ->
+  exists w' : world K V T,
+    (e <- entry_of E k ;; or_insert E debug e v) w = Panic w' /\
+    self w' = self w /\
+    logged w w' (ev_drops (idK E k ++ idV E v)).
+Proof. exact (@or_insert_full_panics). Qed.
+Print Assumptions C03_or_insert_full_panics.
+
+(* EVERY environment, every closure (panicking or not): on a vacant entry the
+   chain is exactly "log the closure call (EvCall 2); evaluate f ONCE at the
+   callback state entry_of left; VacantEntry::insert the value, or - if the
+   closure panicked (None) - unwind, which destroys the key the VacantEntry owns
+   (its Drop events follow EvCall 2; container untouched)" *)
+Theorem C03_or_insert_with_run :
+  forall (K V Q T : Type) (E : env K V Q T) (debug : bool)
+         (k : K) (f : T -> option V * T) (w w1 : world K V T),
+  entry_of E k w = Ok (Vacant k) w1 ->
+  (e <- entry_of E k ;; or_insert_with E debug e f) w =
+  match fst (f (cb w1)) with
+  | Some v => vac_insert E debug k v
+                {| cb := snd (f (cb w1)); log := log w1 ++ [EvCall 2]; self := self w1 |}
+  | None => Panic {| cb := snd (dropK E (snd (f (cb w1))) k);
+                     log := (log w1 ++ [EvCall 2]) ++ ev_drops (idK E k); self := self w1 |}
+  end.
+Proof. exact (@or_insert_with_run). Qed.
+Print Assumptions C03_or_insert_with_run.
+
+Theorem C03_or_insert_with_key_run :
+  forall (K V Q T : Type) (E : env K V Q T) (debug : bool)
+         (k : K) (f : K -> T -> option V * T) (w w1 : world K V T),
+  entry_of E k w = Ok (Vacant k) w1 ->
+  (e <- entry_of E k ;; or_insert_with_key E debug e f) w =
+  match fst (f k (cb w1)) with
+  | Some v => vac_insert E debug k v
+                {| cb := snd (f k (cb w1)); log := log w1 ++ [EvCall 2]; self := self w1 |}
+  | None => Panic {| cb := snd (dropK E (snd (f k (cb w1))) k);
+                     log := (log w1 ++ [EvCall 2]) ++ ev_drops (idK E k); self := self w1 |}
+  end.
+Proof. exact (@or_insert_with_key_run). Qed.
+Print Assumptions C03_or_insert_with_key_run.
+
+(* the closure is assumed not to panic ("forall s, exists v s', f s = (Some v, s')":
+   panicking closures are C04's); the value v destroyed with the key is the
+   result of THE call:  f (cb w1) = (Some v, s')  with w1 the world entry_of left *)
+Theorem C03_or_insert_with_full_panics :
+  forall (K V Q T : Type) (E : env K V Q T) (debug : bool) (ck : K -> N) (cq : Q -> N),
+  Lawful E ck cq ->
+  forall (k : K) (f : T -> option V * T) (w : world K V T),
+  WF (self w) ->
+  find_idx ck (ck k) (Spec.elems (self w)) = None ->
+  len (self w) = cap (self w) ->
+  (forall s : T, exists (v : V) (s' : T), f s = (Some v, s')) ->
+  exists (w1 : world K V T) (v : V) (s' : T) (w' : world K V T),
+    entry_of E k w = Ok (Vacant k) w1 /\ self w1 = self w /\ log w1 = log w /\
+    f (cb w1) = (Some v, s') /\
+    (e <- entry_of E k ;; or_insert_with E debug e f) w = Panic w' /\
+    self w' = self w /\
+    logged w w' ([EvCall 2] ++ ev_drops (idK E k ++ idV E v)).
+Proof. exact (@or_insert_with_full_panics). Qed.
+Print Assumptions C03_or_insert_with_full_panics.
+
+Theorem C03_or_insert_with_key_full_panics :
+  forall (K V Q T : Type) (E : env K V Q T) (debug : bool) (ck : K -> N) (cq : Q -> N),
+  Lawful E ck cq ->
+  forall (k : K) (f : K -> T -> option V * T) (w : world K V T),
+  WF (self w) ->
+  find_idx ck (ck k) (Spec.elems (self w)) = None ->
+  len (self w) = cap (self w) ->
+  (forall s : T, exists (v : V) (s' : T), f k s = (Some v, s')) ->
+  exists (w1 : world K V T) (v : V) (s' : T) (w' : world K V T),
+    entry_of E k w = Ok (Vacant k) w1 /\ self w1 = self w /\ log w1 = log w /\
+    f k (cb w1) = (Some v, s') /\
+    (e <- entry_of E k ;; or_insert_with_key E debug e f) w = Panic w' /\
+    self w' = self w /\
+    logged w w' ([EvCall 2] ++ ev_drops (idK E k ++ idV E v)).
+Proof. exact (@or_insert_with_key_full_panics). Qed.
+Print Assumptions C03_or_insert_with_key_full_panics.
+
+(* Entry::or_default() is or_insert_with(Default::default).  [d] is the
+   default-maker (a total function: Default::default() here does not panic);
+   mk_of d := fun s => (Some (fst (d s)), snd (d s))  (Proofs/MoreBulk.v).
+   On a FULL map with an absent key it panics; the default WAS built (one
+   closure call, EvCall 2) and is destroyed with the key, exactly once. *)
+Theorem C03_or_default_full_panics :
+  forall (K V Q T : Type) (E : env K V Q T) (debug : bool) (ck : K -> N) (cq : Q -> N),
+  Lawful E ck cq ->
+  forall (k : K) (d : T -> V * T) (w : world K V T),
+  WF (self w) ->
+  find_idx ck (ck k) (Spec.elems (self w)) = None ->
+  len (self w) = cap (self w) ->
+  exists w1 w' : world K V T,
+    entry_of E k w = Ok (Vacant k) w1 /\ self w1 = self w /\ log w1 = log w /\
+    (e <- entry_of E k ;; or_insert_with E debug e (mk_of d)) w = Panic w' /\
+    self w' = self w /\
+    logged w w' ([EvCall 2] ++ ev_drops (idK E k ++ idV E (fst (d (cb w1))))).
+Proof. exact (@or_default_full_panics). Qed.
+Print Assumptions C03_or_default_full_panics.
+
+(* wp forms with the closure call tied to its state in BOTH clauses: on return
+   the value stored is the closure's, on overflow the value destroyed is *)
+Theorem C03_or_insert_with_tied :
+  forall (K V Q T : Type) (E : env K V Q T) (debug : bool) (ck : K -> N) (cq : Q -> N),
+  Lawful E ck cq ->
+  forall (k : K) (f : T -> option V * T) (w : world K V T),
+  WF (self w) ->
+  (forall s : T, exists (v : V) (s' : T), f s = (Some v, s')) ->
+  wp (e <- entry_of E k ;; or_insert_with E debug e f)
+    (fun (i : nat) (w' : world K V T) =>
+       WF (self w') /\
+       cap (self w') = cap (self w) /\
+       match find_idx ck (ck k) (Spec.elems (self w)) with
+       | Some j => i = j /\ self w' = self w /\ logged w w' (ev_drops (idK E k))
+       | None => i = length (Spec.elems (self w)) /\
+                 (exists (w1 : world K V T) (v : V) (s' : T),
+                    entry_of E k w = Ok (Vacant k) w1 /\
+                    f (cb w1) = (Some v, s') /\
+                    Spec.elems (self w') = Spec.elems (self w) ++ [(k, v)]) /\
+                 logged w w' [EvCall 2]
+       end)
+    (fun w' : world K V T =>
+       self w' = self w /\
+       (exists (w1 : world K V T) (v : V) (s' : T),
+          entry_of E k w = Ok (Vacant k) w1 /\
+          f (cb w1) = (Some v, s') /\
+          logged w w' ([EvCall 2] ++ ev_drops (idK E k ++ idV E v))) /\
+       find_idx ck (ck k) (Spec.elems (self w)) = None /\
+       len (self w) = cap (self w))
+    w.
+Proof. exact (@or_insert_with_tied). Qed.
+Print Assumptions C03_or_insert_with_tied.
+
+Theorem C03_or_insert_with_key_tied :
+  forall (K V Q T : Type) (E : env K V Q T) (debug : bool) (ck : K -> N) (cq : Q -> N),
+  Lawful E ck cq ->
+  forall (k : K) (f : K -> T -> option V * T) (w : world K V T),
+  WF (self w) ->
+  (forall s : T, exists (v : V) (s' : T), f k s = (Some v, s')) ->
+  wp (e <- entry_of E k ;; or_insert_with_key E debug e f)
+    (fun (i : nat) (w' : world K V T) =>
+       WF (self w') /\
+       cap (self w') = cap (self w) /\
+       match find_idx ck (ck k) (Spec.elems (self w)) with
+       | Some j => i = j /\ self w' = self w /\ logged w w' (ev_drops (idK E k))
+       | None => i = length (Spec.elems (self w)) /\
+                 (exists (w1 : world K V T) (v : V) (s' : T),
+                    entry_of E k w = Ok (Vacant k) w1 /\
+                    f k (cb w1) = (Some v, s') /\
+                    Spec.elems (self w') = Spec.elems (self w) ++ [(k, v)]) /\
+                 logged w w' [EvCall 2]
+       end)
+    (fun w' : world K V T =>
+       self w' = self w /\
+       (exists (w1 : world K V T) (v : V) (s' : T),
+          entry_of E k w = Ok (Vacant k) w1 /\
+          f k (cb w1) = (Some v, s') /\
+          logged w w' ([EvCall 2] ++ ev_drops (idK E k ++ idV E v))) /\
+       find_idx ck (ck k) (Spec.elems (self w)) = None /\
+       len (self w) = cap (self w))
+    w.
+Proof. exact (@or_insert_with_key_tied). Qed.
+Print Assumptions C03_or_insert_with_key_tied.
+
+(* -------------------------------------------------------------------------- *)
+(* 1c. Set::insert / Set::replace (Model/SetOps.v: s_insert k = Map::insert k ()
+   mapped to "was it new", s_replace k = insert_ii k () true mapped to the old
+   element): what they compute, and that they panic on a full set.  idV E tt is
+   the identity list of the unit value (empty in the harness environment).     *)
+Theorem C03_s_insert_lawful :
+  forall (K Q T : Type) (E : env K unit Q T) (debug : bool) (ck : K -> N) (cq : Q -> N),
+  Lawful E ck cq ->
+  forall (k : K) (w : world K unit T),
+  WF (self w) ->
+  wp (s_insert E debug k)
+    (fun (r : bool) (w' : world K unit T) =>
+       WF (self w') /\
+       cap (self w') = cap (self w) /\
+       r = match find_idx ck (ck k) (Spec.elems (self w)) with Some _ => false | None => true end /\
+       Spec.elems (self w') =
+         match find_idx ck (ck k) (Spec.elems (self w)) with
+         | Some _ => Spec.elems (self w)
+         | None => Spec.elems (self w) ++ [(k, tt)]
+         end /\
+       (find_idx ck (ck k) (Spec.elems (self w)) = None -> len (self w) < cap (self w)))
+    (fun w' : world K unit T =>
+       self w' = self w /\
+       logged w w' (ev_drops (idK E k ++ idV E tt)) /\
+       find_idx ck (ck k) (Spec.elems (self w)) = None /\
+       len (self w) = cap (self w))
+    w.
+Proof. exact (@s_insert_lawful). Qed.
+Print Assumptions C03_s_insert_lawful.
+
+Theorem C03_s_replace_lawful :
+  forall (K Q T : Type) (E : env K unit Q T) (debug : bool) (ck : K -> N) (cq : Q -> N),
+  Lawful E ck cq ->
+  forall (k : K) (w : world K unit T),
+  WF (self w) ->
+  wp (s_replace E debug k)
+    (fun (r : option K) (w' : world K unit T) =>
+       WF (self w') /\
+       cap (self w') = cap (self w) /\
+       log w' = log w /\
+       r = option_map fst (lookup ck (Spec.elems (self w)) (ck k)) /\
+       Spec.elems (self w') =
+         match find_idx ck (ck k) (Spec.elems (self w)) with
+         | Some i => upd (Spec.elems (self w)) i (k, tt)
+         | None => Spec.elems (self w) ++ [(k, tt)]
+         end /\
+       (find_idx ck (ck k) (Spec.elems (self w)) = None -> len (self w) < cap (self w)))
+    (fun w' : world K unit T =>
+       self w' = self w /\
+       logged w w' (ev_drops (idK E k ++ idV E tt)) /\
+       find_idx ck (ck k) (Spec.elems (self w)) = None /\
+       len (self w) = cap (self w))
+    w.
+Proof. exact (@s_replace_lawful). Qed.
+Print Assumptions C03_s_replace_lawful.
+
+Theorem C03_s_insert_full_panics :
+  forall (K Q T : Type) (E : env K unit Q T) (debug : bool) (ck : K -> N) (cq : Q -> N),
+  Lawful E ck cq ->
+  forall (k : K) (w : world K unit T),
+  WF (self w) ->
+  find_idx ck (ck k) (Spec.elems (self w)) = None ->
+  len (self w) = cap (self w) ->
+  exists w' : world K unit T,
+    s_insert E debug k w = Panic w' /\
+    self w' = self w /\
+    logged w w' (ev_drops (idK E k ++ idV E tt)).
+Proof. exact (@s_insert_full_panics). Qed.
+Print Assumptions C03_s_insert_full_panics.
+
+Theorem C03_s_replace_full_panics :
+  forall (K Q T : Type) (E : env K unit Q T) (debug : bool) (ck : K -> N) (cq : Q -> N),
+  Lawful E ck cq ->
+  forall (k : K) (w : world K unit T),
+  WF (self w) ->
+  find_idx ck (ck k) (Spec.elems (self w)) = None ->
+  len (self w) = cap (self w) ->
+  exists w' : world K unit T,
+    s_replace E debug k w = Panic w' /\
+    self w' = self w /\
+    logged w w' (ev_drops (idK E k ++ idV E tt)).
+Proof. exact (@s_replace_full_panics). Qed.
+Print Assumptions C03_s_replace_full_panics.
+
+(* -------------------------------------------------------------------------- *)
+(* 2. "collect/From/extend ... panics ... without writing outside the container;
+   afterwards the container holds exactly its previous entries [plus what the
+   items before the overflowing one added], stays usable, and the rejected key
+   and value have been destroyed once".
+
+   Vocabulary (Proofs/MoreBulk.v; the two definitions are restated as theorems):
+     pair_drops E p        the Drop events of the pair p: ev_drops (idK E (fst p) ++ idV E (snd p))
+     ext_evs E ck l items  the events of inserting items one by one into the list l:
+                           per item one EvCall 1 (the pull), then - if its key was
+                           present - the Drop of the SUPPLIED key object and of the
+                           DISPLACED value; nothing else.
+   On overflow: items = pre ++ x :: post, where
+     - l_extend .. pre = Some (Spec.elems (self w')): the container holds exactly
+       what the items before the overflowing one built (Extend keeps them);
+     - find_idx .. (ck (fst x)) .. = None and length = cap: x is a new key and the
+       container is full (nothing was written: cap unchanged, WF kept, no UB);
+     - the log is EXACTLY: what building pre logged, the pull that yielded x, the
+       Drop of x (once), the Drop of every item of post (once each, in order: they
+       were never yielded; the source iterator owning them is dropped by the
+       unwinding) - and nothing else;
+     - from_iter (collect / From<[_; N]>) then destroys the partial container
+       res = what pre built, entry by entry: its Drop events close the log.      *)
+Theorem C03_pair_drops_def :
+  forall (K V Q T : Type) (E : env K V Q T) (p : K * V),
+  pair_drops E p = ev_drops (idK E (fst p) ++ idV E (snd p)).
+Proof. reflexivity. Qed.
+Print Assumptions C03_pair_drops_def.
+
+Theorem C03_ext_evs_def :
+  forall (K V Q T : Type) (E : env K V Q T) (ck : K -> N) (l : list (K * V)),
+  ext_evs E ck l [] = [] /\
+  forall (k : K) (v : V) (rest : list (K * V)),
+    ext_evs E ck l ((k, v) :: rest) =
+    [EvCall 1] ++
+    match snd (l_insert ck l k v false) with
+    | Some (k', v0) => ev_drops (idK E k') ++ ev_drops (idV E v0)
+    | None => []
+    end ++
+    ext_evs E ck (fst (fst (l_insert ck l k v false))) rest.
+Proof. intros. split; reflexivity. Qed.
+Print Assumptions C03_ext_evs_def.
+
+Theorem C03_extend_loop_overflow :
+  forall (K V Q T : Type) (E : env K V Q T) (debug : bool) (ck : K -> N) (cq : Q -> N),
+  Lawful E ck cq ->
+  forall (nx : T -> ans * T) (items : list (K * V)),
+  (forall s : T, fst (nx s) <> Boom) ->
+  forall w : world K V T,
+  WF (self w) ->
+  wp (extend_loop E debug nx items)
+    (fun (_ : unit) (w' : world K V T) =>
+       WF (self w') /\
+       cap (self w') = cap (self w) /\
+       l_extend ck (cap (self w)) (Spec.elems (self w)) items = Some (Spec.elems (self w')) /\
+       log w' = log w ++ ext_evs E ck (Spec.elems (self w)) items ++ [EvCall 1])
+    (fun w' : world K V T =>
+       WF (self w') /\
+       cap (self w') = cap (self w) /\
+       l_extend ck (cap (self w)) (Spec.elems (self w)) items = None /\
+       exists (pre : list (K * V)) (x : K * V) (post : list (K * V)),
+         items = pre ++ x :: post /\
+         l_extend ck (cap (self w)) (Spec.elems (self w)) pre = Some (Spec.elems (self w')) /\
+         find_idx ck (ck (fst x)) (Spec.elems (self w')) = None /\
+         length (Spec.elems (self w')) = cap (self w) /\
+         log w' = log w ++ ext_evs E ck (Spec.elems (self w)) pre ++ [EvCall 1] ++
+                           pair_drops E x ++ flat_map (pair_drops E) post)
+    w.
+Proof. exact (@extend_loop_overflow). Qed.
+Print Assumptions C03_extend_loop_overflow.
+
+(* positively: if the list machine overflows, Extend panics, in both builds *)
+Theorem C03_extend_loop_overflow_panics :
+  forall (K V Q T : Type) (E : env K V Q T) (debug : bool) (ck : K -> N) (cq : Q -> N),
+  Lawful E ck cq ->
+  forall (nx : T -> ans * T) (items : list (K * V)) (w : world K V T),
+  (forall s : T, fst (nx s) <> Boom) ->
+  WF (self w) ->
+  l_extend ck (cap (self w)) (Spec.elems (self w)) items = None ->
+  exists (w' : world K V T) (pre : list (K * V)) (x : K * V) (post : list (K * V)),
+    extend_loop E debug nx items w = Panic w' /\
+    WF (self w') /\
+    cap (self w') = cap (self w) /\
+    items = pre ++ x :: post /\
+    l_extend ck (cap (self w)) (Spec.elems (self w)) pre = Some (Spec.elems (self w')) /\
+    find_idx ck (ck (fst x)) (Spec.elems (self w')) = None /\
+    length (Spec.elems (self w')) = cap (self w) /\
+    log w' = log w ++ ext_evs E ck (Spec.elems (self w)) pre ++ [EvCall 1] ++
+                      pair_drops E x ++ flat_map (pair_drops E) post.
+Proof. exact (@extend_loop_overflow_panics). Qed.
+Print Assumptions C03_extend_loop_overflow_panics.
+
+(* collect / From<[(K,V); N]>: len (self w) = 0 is "the fresh Map::new()" *)
+Theorem C03_from_iter_overflow :
+  forall (K V Q T : Type) (E : env K V Q T) (debug : bool) (ck : K -> N) (cq : Q -> N),
+  Lawful E ck cq ->
+  forall (nx : T -> ans * T) (items : list (K * V)) (w : world K V T),
+  (forall s : T, fst (nx s) <> Boom) ->
+  WF (self w) ->
+  len (self w) = 0 ->
+  wp (from_iter E debug nx items)
+    (fun (_ : unit) (w' : world K V T) =>
+       WF (self w') /\
+       cap (self w') = cap (self w) /\
+       l_extend ck (cap (self w)) [] items = Some (Spec.elems (self w')) /\
+       log w' = log w ++ ext_evs E ck [] items ++ [EvCall 1])
+    (fun w' : world K V T =>
+       l_extend ck (cap (self w)) [] items = None /\
+       exists (pre : list (K * V)) (x : K * V) (post res : list (K * V)),
+         items = pre ++ x :: post /\
+         l_extend ck (cap (self w)) [] pre = Some res /\
+         find_idx ck (ck (fst x)) res = None /\
+         length res = cap (self w) /\
+         log w' = log w ++ ext_evs E ck [] pre ++ [EvCall 1] ++
+                           pair_drops E x ++ flat_map (pair_drops E) post ++
+                           flat_map (pair_drops E) res)
+    w.
+Proof. exact (@from_iter_overflow). Qed.
+Print Assumptions C03_from_iter_overflow.
+
+(* Set: unit_items items = map (fun k => (k, tt)) items (Proofs/Bulk.v);
+   s_ext_evs is ext_evs without a value Drop (() has no destructor) *)
+Theorem C03_s_ext_evs_def :
+  forall (K Q T : Type) (E : env K unit Q T) (ck : K -> N) (l : list (K * unit)),
+  s_ext_evs E ck l [] = [] /\
+  forall (k : K) (rest : list K),
+    s_ext_evs E ck l (k :: rest) =
+    [EvCall 1] ++
+    match snd (l_insert ck l k tt false) with
+    | Some (k', _) => ev_drops (idK E k')
+    | None => []
+    end ++
+    s_ext_evs E ck (fst (fst (l_insert ck l k tt false))) rest.
+Proof. intros. split; reflexivity. Qed.
+Print Assumptions C03_s_ext_evs_def.
+
+Theorem C03_s_extend_loop_overflow :
+  forall (K Q T : Type) (E : env K unit Q T) (debug : bool) (ck : K -> N) (cq : Q -> N),
+  Lawful E ck cq ->
+  forall (nx : T -> ans * T) (items : list K),
+  (forall s : T, fst (nx s) <> Boom) ->
+  forall w : world K unit T,
+  WF (self w) ->
+  wp (s_extend_loop E debug nx items)
+    (fun (_ : unit) (w' : world K unit T) =>
+       WF (self w') /\
+       cap (self w') = cap (self w) /\
+       l_extend ck (cap (self w)) (Spec.elems (self w)) (unit_items items) = Some (Spec.elems (self w')) /\
+       log w' = log w ++ s_ext_evs E ck (Spec.elems (self w)) items ++ [EvCall 1])
+    (fun w' : world K unit T =>
+       WF (self w') /\
+       cap (self w') = cap (self w) /\
+       l_extend ck (cap (self w)) (Spec.elems (self w)) (unit_items items) = None /\
+       exists (pre : list K) (x : K) (post : list K),
+         items = pre ++ x :: post /\
+         l_extend ck (cap (self w)) (Spec.elems (self w)) (unit_items pre) = Some (Spec.elems (self w')) /\
+         find_idx ck (ck x) (Spec.elems (self w')) = None /\
+         length (Spec.elems (self w')) = cap (self w) /\
+         log w' = log w ++ s_ext_evs E ck (Spec.elems (self w)) pre ++ [EvCall 1] ++
+                           pair_drops E (x, tt) ++ flat_map (pair_drops E) (unit_items post))
+    w.
+Proof. exact (@s_extend_loop_overflow). Qed.
+Print Assumptions C03_s_extend_loop_overflow.
+
+Theorem C03_s_extend_loop_overflow_panics :
+  forall (K Q T : Type) (E : env K unit Q T) (debug : bool) (ck : K -> N) (cq : Q -> N),
+  Lawful E ck cq ->
+  forall (nx : T -> ans * T) (items : list K) (w : world K unit T),
+  (forall s : T, fst (nx s) <> Boom) ->
+  WF (self w) ->
+  l_extend ck (cap (self w)) (Spec.elems (self w)) (unit_items items) = None ->
+  exists (w' : world K unit T) (pre : list K) (x : K) (post : list K),
+    s_extend_loop E debug nx items w = Panic w' /\
+    WF (self w') /\
+    cap (self w') = cap (self w) /\
+    items = pre ++ x :: post /\
+    l_extend ck (cap (self w)) (Spec.elems (self w)) (unit_items pre) = Some (Spec.elems (self w')) /\
+    find_idx ck (ck x) (Spec.elems (self w')) = None /\
+    length (Spec.elems (self w')) = cap (self w) /\
+    log w' = log w ++ s_ext_evs E ck (Spec.elems (self w)) pre ++ [EvCall 1] ++
+                      pair_drops E (x, tt) ++ flat_map (pair_drops E) (unit_items post).
+Proof. exact (@s_extend_loop_overflow_panics). Qed.
+Print Assumptions C03_s_extend_loop_overflow_panics.
+
+Theorem C03_s_from_iter_overflow :
+  forall (K Q T : Type) (E : env K unit Q T) (debug : bool) (ck : K -> N) (cq : Q -> N),
+  Lawful E ck cq ->
+  forall (nx : T -> ans * T) (items : list K) (w : world K unit T),
+  (forall s : T, fst (nx s) <> Boom) ->
+  WF (self w) ->
+  len (self w) = 0 ->
+  wp (s_from_iter E debug nx items)
+    (fun (_ : unit) (w' : world K unit T) =>
+       WF (self w') /\
+       cap (self w') = cap (self w) /\
+       l_extend ck (cap (self w)) [] (unit_items items) = Some (Spec.elems (self w')) /\
+       log w' = log w ++ s_ext_evs E ck [] items ++ [EvCall 1])
+    (fun w' : world K unit T =>
+       l_extend ck (cap (self w)) [] (unit_items items) = None /\
+       exists (pre : list K) (x : K) (post : list K) (res : list (K * unit)),
+         items = pre ++ x :: post /\
+         l_extend ck (cap (self w)) [] (unit_items pre) = Some res /\
+         find_idx ck (ck x) res = None /\
+         length res = cap (self w) /\
+         log w' = log w ++ s_ext_evs E ck [] pre ++ [EvCall 1] ++
+                           pair_drops E (x, tt) ++ flat_map (pair_drops E) (unit_items post) ++
+                           flat_map (pair_drops E) res)
+    w.
+Proof. exact (@s_from_iter_overflow). Qed.
+Print Assumptions C03_s_from_iter_overflow.
+
+(* -------------------------------------------------------------------------- *)
+(* 3. "capacity() is always N with len() never above it".  The model's
+   capacity() (Model/MapOps.v: capacity := get_cap) returns the size of the slot
+   array - the const parameter N - in EVERY world, reads nothing else, changes
+   nothing and cannot panic; len() likewise returns the len field.  That the
+   value never changes along a history is C03_step_safe (caps constant) and the
+   cap clause of every theorem above (Safety.keeps: cap (self w') = cap (self w)). *)
+Theorem C03_capacity_spec :
+  forall (K V T : Type) (w : world K V T), @capacity K V T w = Ok (cap (self w)) w.
+Proof. exact (@capacity_spec). Qed.
+Print Assumptions C03_capacity_spec.
+
+Theorem C03_length_spec :
+  forall (K V T : Type) (w : world K V T), @length_ K V T w = Ok (len (self w)) w.
+Proof. exact (@length_spec). Qed.
+Print Assumptions C03_length_spec.
+
+Theorem C03_capacity_ge_len :
+  forall (K V T : Type) (w : world K V T),
+  WF (self w) ->
+  exists n c : nat,
+    @length_ K V T w = Ok n w /\ @capacity K V T w = Ok c w /\ n <= c /\ c = cap (self w).
+Proof. exact (@capacity_ge_len). Qed.
+Print Assumptions C03_capacity_ge_len.
+
+(* -------------------------------------------------------------------------- *)
+(* non-vacuity.  sc0 is the honest script; m3 (Proofs/Legacy.v) is full (3/3)
+   with classes 5,6,7; the key k_ 9 9 (id 9, class 9) is absent
+   (C03_example_full above gives the three hypotheses for w_of m3).            *)
+Definition C03_sc0 : script := {| sc_adv := false; sc_seed := 0; sc_fk := 0; sc_fa := 0 |}.
+
+(* the closure hypotheses hold of the harness closures under an honest script *)
+Example C03_example_mk_val_total :
+  forall s : cstate, exists (v : vobj) (s' : cstate), mk_val C03_sc0 (v_ 10 10) s = (Some v, s').
+Proof. intros s. eexists. eexists. reflexivity. Qed.
+
+Example C03_example_mk_default_total :
+  forall s : cstate, exists (v : vobj) (s' : cstate), mk_default C03_sc0 s = (Some v, s').
+Proof. intros s. eexists. eexists. reflexivity. Qed.
+
+(* entry(k).or_insert(v) on the full map, DEBUG build *)
+Example C03_example_or_insert_full :
+  match (e <- entry_of (env_map C03_sc0) (k_ 9 9) ;; or_insert (env_map C03_sc0) true e (v_ 10 10)) (w_of m3) with
+  | Panic w' => self w' = m3 /\ log w' = [EvDrop 9; EvDrop 10]
+  | _ => False
+  end.
+Proof. vm_compute. split; reflexivity. Qed.
+
+(* or_insert_with: one closure call, then key 9 and the closure's value 10 destroyed *)
+Example C03_example_or_insert_with_full :
+  match (e <- entry_of (env_map C03_sc0) (k_ 9 9) ;;
+         or_insert_with (env_map C03_sc0) false e (mk_val C03_sc0 (v_ 10 10))) (w_of m3) with
+  | Panic w' => self w' = m3 /\ log w' = [EvCall 2; EvDrop 9; EvDrop 10] /\ n_call (cb w') = 1%N
+  | _ => False
+  end.
+Proof. vm_compute. repeat split; reflexivity. Qed.
+
+(* or_default: the default object (fresh id 100000) IS built and destroyed *)
+Example C03_example_or_default_full :
+  match (e <- entry_of (env_map C03_sc0) (k_ 9 9) ;;
+         or_insert_with (env_map C03_sc0) false e (mk_default C03_sc0)) (w_of m3) with
+  | Panic w' => self w' = m3 /\ log w' = [EvCall 2; EvDrop 9; EvDrop 100000] /\ n_call (cb w') = 1%N
+  | _ => False
+  end.
+Proof. vm_compute. repeat split; reflexivity. Qed.
+
+(* a full Set (2/2, classes 5 and 6) rejects element 9: insert (release) and replace (debug) *)
+Definition C03_s2 : map key unit := {| len := 2; slots := [Some (k_ 1 5, tt); Some (k_ 3 6, tt)] |}.
+Definition C03_ws (m : map key unit) : world key unit cstate := {| cb := cs0; log := []; self := m |}.
+
+Example C03_example_set_full :
+  WF (self (C03_ws C03_s2)) /\ len (self (C03_ws C03_s2)) = cap (self (C03_ws C03_s2)) /\
+  find_idx kcls 9%N (Spec.elems (self (C03_ws C03_s2))) = None.
+Proof.
+  split; [|split; vm_compute; reflexivity].
+  split; [vm_compute; lia|]. intros i Hi. cbn [len C03_ws C03_s2 self] in Hi.
+  destruct i as [|[|i]]; try lia; eexists; reflexivity.
+Qed.
+
+Example C03_example_s_insert_full :
+  match s_insert (env_set C03_sc0) false (k_ 9 9) (C03_ws C03_s2) with
+  | Panic w' => self w' = C03_s2 /\ log w' = [EvDrop 9]
+  | _ => False
+  end.
+Proof. vm_compute. split; reflexivity. Qed.
+
+Example C03_example_s_replace_full :
+  match s_replace (env_set C03_sc0) true (k_ 9 9) (C03_ws C03_s2) with
+  | Panic w' => self w' = C03_s2 /\ log w' = [EvDrop 9]
+  | _ => False
+  end.
+Proof. vm_compute. split; reflexivity. Qed.
+
+(* Extend onto a NON-EMPTY map (2/3: classes 5, 6) with four items of classes
+   6, 7, 8, 5: item 1 replaces the value of class 6 (supplied key 11 and old value
+   4 destroyed), item 2 (class 7) fills the map, item 3 (class 8) overflows:
+   pre = items 1-2, x = item 3, post = item 4.  At the panic the map holds what
+   pre built; x (15, 16) and post (17, 18) are destroyed once; 3 pulls. *)
+Definition C03_m2 : map key vobj :=
+  {| len := 2; slots := [Some (k_ 1 5, v_ 2 7); Some (k_ 3 6, v_ 4 8); None] |}.
+Definition C03_items : list (key * vobj) :=
+  [(k_ 11 6, v_ 12 1); (k_ 13 7, v_ 14 2); (k_ 15 8, v_ 16 3); (k_ 17 5, v_ 18 4)].
+
+Example C03_example_extend_overflow :
+  match extend_loop (env_map C03_sc0) false nx_none C03_items (w_of C03_m2) with
+  | Panic w' =>
+      Spec.elems (self w') = [(k_ 1 5, v_ 2 7); (k_ 3 6, v_ 12 1); (k_ 13 7, v_ 14 2)] /\
+      l_extend kcls 3 (Spec.elems C03_m2) [(k_ 11 6, v_ 12 1); (k_ 13 7, v_ 14 2)]
+        = Some (Spec.elems (self w')) /\
+      cap (self w') = 3 /\
+      log w' = [EvCall 1; EvDrop 11; EvDrop 4; EvCall 1; EvCall 1;
+                EvDrop 15; EvDrop 16; EvDrop 17; EvDrop 18]
+  | _ => False
+  end.
+Proof. vm_compute. repeat split; reflexivity. Qed.
+
+(* collect of the same items into capacity 2: overflow at item 3; the partial
+   map (11,12),(13,14) is destroyed after the rejected item and the rest *)
+Example C03_example_from_iter_overflow :
+  match from_iter (env_map C03_sc0) true nx_none C03_items (w_of (new_map 2)) with
+  | Panic w' =>
+      log w' = [EvCall 1; EvCall 1; EvCall 1; EvDrop 15; EvDrop 16; EvDrop 17; EvDrop 18;
+                EvDrop 11; EvDrop 12; EvDrop 13; EvDrop 14]
+  | _ => False
+  end.
+Proof. vm_compute. reflexivity. Qed.
+
+(* capacity() / len() on the full map *)
+Example C03_example_capacity :
+  @capacity key vobj cstate (w_of m3) = Ok 3 (w_of m3) /\
+  @length_ key vobj cstate (w_of m3) = Ok 3 (w_of m3) /\
+  @capacity key vobj cstate (w_of (new_map 0)) = Ok 0 (w_of (new_map 0)).
+Proof. repeat split; reflexivity. Qed.
+
+(* a PANICKING closure (script: closure call number 0 panics) on the same full
+   map: the run is "EvCall 2, evaluate f, destroy the VacantEntry's key 9"
+   (C03_or_insert_with_run, None branch); the container is untouched *)
+Example C03_example_or_insert_with_closure_panics :
+  let sc := {| sc_adv := false; sc_seed := 0; sc_fk := 4; sc_fa := 0 |} in
+  match (e <- entry_of (env_map sc) (k_ 9 9) ;;
+         or_insert_with (env_map sc) false e (mk_val sc (v_ 10 10))) (w_of m3) with
+  | Panic w' => self w' = m3 /\ log w' = [EvCall 2; EvDrop 9]
+  | _ => False
+  end.
+Proof. vm_compute. split; reflexivity. Qed.
